@@ -268,6 +268,8 @@ def run(ctx):
         route = E.pick_route(rng)               # how the object holding the transformed data got them (fresh / re-assigned)
         ctx.count('search/route/%s' % route)
         cfg = E.default_cfg(cls, N, rng, True)
+        if cls == 'MultiTapering':
+            cfg['method'] = ['adapt', 'unity', 'eigen'][(it // len(plan)) % 3]      # every weighting, deterministically
         if cls == 'pcorrelogram':
             NFFT = max(NFFT, 2 * cfg['lag'] + 2)
         if cls == 'pminvar':
@@ -309,6 +311,8 @@ def run(ctx):
         xr, kind = E.gen_data(rng, N, False)
         x = np.asarray(xr, dtype=complex)
         cfg = E.default_cfg(cls, N, rng, True)
+        if cls == 'MultiTapering':
+            cfg['method'] = ['adapt', 'unity', 'eigen'][(it // len(plan)) % 3]      # every weighting, deterministically
         if cls == 'pcorrelogram':
             NFFT = max(NFFT, 2 * cfg['lag'] + 2)
         if cls == 'pminvar':
